@@ -94,14 +94,48 @@ func malformedAnswer(clientName string, id json.RawMessage) (ans []byte, known b
 // ---------- what today's code does: scenario x client -> model environment
 
 // What a handshake under a scenario looks like from outside, in the model's alphabet:
-//   rpcErr     initialize on the wire, Initialize fails, nothing further (a refusal; stage 2)
-//   badResult  the same trace, for an answer that is not a refusal (stage 3: nothing usable)
-//   noAnswer   initialize on the wire, no usable answer within the caller's deadline: fails, nothing further
-//   ok         ACCEPTED: notifications/initialized follows, the client is initialized
+//
+//	rpcErr     initialize on the wire, Initialize fails, nothing further (a refusal; stage 2)
+//	badResult  the same trace, for an answer that is not a refusal (stage 3: nothing usable)
+//	noAnswer   initialize on the wire, no usable answer within the caller's deadline: fails, nothing further
+//	ok         ACCEPTED: notifications/initialized follows, the client is initialized
+//
 // The table is what the unchanged code does (measured; the run re-measures it and reports every deviation as a
 // disagreement with the model, and every accepted REFUSAL through the statement-level oracle).
 // Keys: scenario, then client kind ("streamable", "streamable@sse", "sse", "stdio").
-var malformedToday = map[string]map[string]string{}
+var malformedToday = func() map[string]map[string]string {
+	all := []string{"streamable", "streamable@sse", "sse", "stdio"}
+	m := map[string]map[string]string{}
+	set := func(env string, scn string, kinds ...string) {
+		if m[scn] == nil {
+			m[scn] = map[string]string{}
+		}
+		for _, k := range kinds {
+			m[scn][k] = env
+		}
+	}
+	// default (modelEnvOf): rpcErr for a refusal, badResult otherwise — Initialize fails at once, nothing further
+	// ACCEPTED today on every client: a null / empty result, a result without / with an unsupported / empty protocolVersion
+	for _, scn := range []string{"resultNull", "resultEmptyObject", "noVersion", "unsupportedVersion", "emptyVersion"} {
+		set("ok", scn, all...)
+	}
+	// ACCEPTED by the HTTP transports (they do not look at the jsonrpc member); the stdio transport drops such a line
+	set("ok", "wrongJsonrpc", "streamable", "streamable@sse", "sse")
+	set("ok", "noJsonrpc", "streamable", "streamable@sse", "sse")
+	// ACCEPTED by the streamable transport when the POST is answered with plain JSON: the id of the answer is not compared
+	set("ok", "wrongId", "streamable")
+	// no usable answer: the caller's deadline ends the call (the streamable fake answers 202 without a session id at once)
+	set("noAnswer", "noAnswer", all...)
+	for _, scn := range []string{"wrongId", "wrongIdRefusal", "notification", "invalidJSON"} {
+		set("noAnswer", scn, "sse", "stdio")
+	}
+	// the stdio transport cannot classify these lines (error member not an object, neither member, jsonrpc not "2.0"):
+	// it drops them and the call runs into its deadline
+	for _, scn := range []string{"errorString", "errorNumber", "errorArray", "neither", "wrongJsonrpc", "noJsonrpc", "wrongJsonrpcRefusal"} {
+		set("noAnswer", scn, "stdio")
+	}
+	return m
+}()
 
 func modelEnvOf(kind string, framed bool, scn string) string {
 	k := kind
@@ -113,11 +147,92 @@ func modelEnvOf(kind string, framed bool, scn string) string {
 			return e
 		}
 	}
+	if scenarioByName[scn].Refusal {
+		return "rpcErr"
+	}
 	return "badResult"
 }
 
-// waits: the client sits out its deadline under this scenario (so the history gets a short one).
-func waits(kind string, framed bool, scn string) bool { return modelEnvOf(kind, framed, scn) == "noAnswer" }
+func scnInit(kind string, framed bool, scn string) cOp {
+	return cOp{T: "init", E: modelEnvOf(kind, framed, scn), S: scn, Framed: framed && kind == "streamable"}
+}
+
+// malformedJobs: every scenario on every client (streamable with both framings), followed by the operations that show
+// what state the client is in; refused and accepted handshakes repeated, interleaved with Close and good handshakes;
+// seeded random histories over the whole alphabet with scenario handshakes mixed in.
+func malformedJobs(c *hk.Ctx) []job {
+	var jobs []job
+	ok := cOp{T: "init", E: "ok"}
+	lt, ct, rr := cOp{T: "req", K: "ListTools"}, cOp{T: "req", K: "CallTool", Fail: true}, cOp{T: "req", K: "ReadResource"}
+	for _, kf := range []string{"streamable", "streamable@sse", "sse", "stdio"} {
+		kind, framed := strings.CutSuffix(kf, "@sse")
+		add := func(tag string, ops ...cOp) { jobs = append(jobs, job{kind, ops, tag}) }
+		var cheap []cOp // scenario handshakes that do not sit out a deadline
+		for _, s := range scenarios {
+			in := scnInit(kind, framed, s.Name)
+			slow := in.E == "noAnswer" && !(kind == "streamable")
+			if !slow {
+				cheap = append(cheap, in)
+			}
+			// the handshake, every kind of operation, a good handshake, an operation
+			h := []cOp{in, lt, {T: "roots"}}
+			if kind != "stdio" {
+				h = append(h, cOp{T: "sendInitialized"}, cOp{T: "terminate"})
+			}
+			add("malformed-answer", append(h, ok, lt)...)
+			if slow && !c.Thorough() {
+				continue
+			}
+			// twice in a row, an operation, Close, once more (streamable reopens), operations
+			add("malformed-answer", in, in, ct, cOp{T: "close"}, in, rr, ok, lt)
+			// after a good handshake (refused as already initialized, without traffic), after Close
+			add("malformed-answer", ok, in, lt, cOp{T: "close"}, in, lt)
+			for _, k := range reqKinds {
+				add("malformed-answer", in, cOp{T: "req", K: k}, cOp{T: "req", K: k, Fail: true})
+			}
+		}
+		n := 40
+		if kind == "stdio" {
+			n = 12
+		}
+		if c.Thorough() {
+			n *= 15
+		}
+		alpha := reducedAlphabet(kind)
+		for i := 0; i < n; i++ {
+			l := 4 + c.Rng.Intn(8)
+			var w []cOp
+			for j := 0; j < l; j++ {
+				switch x := c.Rng.Intn(10); {
+				case x < 5:
+					w = append(w, cheap[c.Rng.Intn(len(cheap))])
+				case x < 6:
+					w = append(w, ok)
+				default:
+					w = append(w, alpha[c.Rng.Intn(len(alpha))])
+				}
+			}
+			jobs = append(jobs, job{kind, w, "malformed-answer-random"})
+		}
+	}
+	return jobs
+}
+
+func runMalformedPhase(c *hk.Ctx) {
+	p, done := newPeers(c)
+	defer done()
+	runClientJobs(c, p, malformedJobs(c))
+	// the table the model environments were chosen from, for the record
+	tab := map[string]map[string]string{}
+	for _, s := range scenarios {
+		tab[s.Name] = map[string]string{}
+		for _, kf := range []string{"streamable", "streamable@sse", "sse", "stdio"} {
+			kind, framed := strings.CutSuffix(kf, "@sse")
+			tab[s.Name][kf] = modelEnvOf(kind, framed, s.Name)
+		}
+	}
+	c.SetExtra("malformed_initialize_answers_today", tab)
+}
 
 // answerDeadline: the per-call deadline of a handshake whose answer will not come (event: the deadline itself).
 const answerDeadline = 500 * time.Millisecond
